@@ -218,6 +218,7 @@ type sim struct {
 	calls     []*call
 	popWait   []*popWaiter
 	valWait   []*popWaiter // validation workers waiting for work (released when their queue holds something)
+	connWait  []*popWaiter // connector goroutines waiting for a dial request
 	qnames    map[*rpcQueue]string
 	nameQueue func(q *rpcQueue) string
 
@@ -516,6 +517,45 @@ func (s *sim) collect() {
 		s.valWait = append(keep, s.valWait...)
 		s.mu.Unlock()
 	}
+	// connectors: the same for the goroutines that dial peers named in peer exchange (the event
+	// loop offers requests to a bounded channel without blocking: how many of a burst get through
+	// would otherwise depend on how fast a connector drains it)
+	s.mu.Lock()
+	cw := s.connWait
+	s.connWait = nil
+	s.mu.Unlock()
+	if len(cw) > 0 {
+		budget := map[*GossipSubRouter]int{}
+		var keep []*popWaiter
+		for _, pw := range cw {
+			if pw.gone {
+				continue
+			}
+			if _, ok := budget[pw.gs]; !ok {
+				budget[pw.gs] = len(pw.gs.connect)
+			}
+			if budget[pw.gs] > 0 && !pw.scheduled {
+				budget[pw.gs]--
+				pw.scheduled = true
+				pw := pw
+				name := "?"
+				for _, n := range s.nodes {
+					if n.ps != nil && n.ps.rt == PubSubRouter(pw.gs) {
+						name = n.name
+					}
+				}
+				s.asap("connector-takes "+name, func() { close(pw.ch) })
+				s.lastEvent.writer = true
+				continue
+			}
+			if !pw.scheduled {
+				keep = append(keep, pw)
+			}
+		}
+		s.mu.Lock()
+		s.connWait = append(keep, s.connWait...)
+		s.mu.Unlock()
+	}
 	// writes
 	sort.SliceStable(dirty, func(i, j int) bool { return dirty[i].id < dirty[j].id })
 	for _, p := range dirty {
@@ -569,6 +609,7 @@ var debugState = os.Getenv("VERIF_DEBUG_STATE") != ""
 type popWaiter struct {
 	q         *rpcQueue // nil for the validated-message turnstile (name is preset)
 	val       *validation
+	gs        *GossipSubRouter // connector goroutines
 	ch        chan struct{}
 	name      string
 	gone      bool
@@ -610,6 +651,23 @@ func (s *sim) scheduleWriters() {
 		select {
 		case <-pw.ch:
 		case <-v.p.ctx.Done():
+			s.mu.Lock()
+			pw.gone = true
+			s.mu.Unlock()
+		}
+	}
+	verifYieldConnFn = func(gs *GossipSubRouter, point int) {
+		if point != verifConnectTake {
+			return
+		}
+		pw := &popWaiter{gs: gs, ch: make(chan struct{})}
+		s.mu.Lock()
+		s.connWait = append(s.connWait, pw)
+		s.mu.Unlock()
+		s.poke()
+		select {
+		case <-pw.ch:
+		case <-gs.p.ctx.Done():
 			s.mu.Lock()
 			pw.gone = true
 			s.mu.Unlock()
@@ -684,9 +742,11 @@ func (s *sim) releaseWriters() {
 	verifYieldMsgFn = nil
 	verifYieldBatchFn = nil
 	verifYieldValFn = nil
+	verifYieldConnFn = nil
 	s.mu.Lock()
-	vw := s.valWait
+	vw := append(s.valWait, s.connWait...)
 	s.valWait = nil
+	s.connWait = nil
 	s.mu.Unlock()
 	for _, pw := range vw {
 		if !pw.scheduled {
